@@ -151,6 +151,8 @@ def arith(op, a, b):
         raise Err("non-numeric operand")
     rank = max(na[0], nb[0])
     x, y = na[1], nb[1]
+    if rank == 2:
+        STATS["float_arithmetic"] += 1
     if rank >= 2:
         x, y = float(x), float(y)
         if op == "/" and y == 0:
